@@ -342,13 +342,14 @@ def probes_ws(text):
 
 def run_text(text, probes, acc):
     seed = acc.seed
-    for h in layouts(text, seed):
+    quick = env.tier() == 'quick'
+    for li, h in enumerate(layouts(text, seed)):
         v = build(h)
         t, cells = model.alpha_codes(v)
         acc.state(model.canon_hash(v))
         acc.evaluations += 1
         for meth, args in probes:
-            for twin in ((False, True) if meth != 'assign' else (False,)):
+            for twin in ((False, True) if (meth != 'assign' and (not quick or li % 3 == 0)) else (False,)):   # quick: AnsiStr twin on every third layout
                 acc.transitions += 1
                 case = {'hist': h, 'meth': meth, 'args': args, 'twin': twin}
                 acc.current = case
